@@ -4,6 +4,7 @@ package checks
 
 import (
 	"fmt"
+	"os"
 	"reflect"
 	"sort"
 	"strings"
@@ -254,23 +255,28 @@ func TestC13(t *testing.T) {
 	behCrashIsViolation = func(crash string) bool {
 		return strings.Contains(crash, "does not implement expected interface")
 	}
-	var rc behCase
-	if replayPayload(t, &rc) {
+	stored := func(path string) {
+		if payloadHas(t, path, "config") { // a verdict case stored as the configuration itself
+			var cc cfgCase
+			loadRegress(t, path, &cc)
+			verdictEvalAndClean(t, cc)
+			return
+		}
+		var rc behCase
+		loadRegress(t, path, &rc)
 		if len(rc.Members) == 1 && len(rc.Members[0].Script.Ops) == 0 && len(rc.Members[0].Files) == 1 {
 			verdictEvalAndClean(t, cfgCase{C: rc.Members[0].Files[0], Style: rc.Members[0].Style})
 			return
 		}
 		behBatch(t, rc, c13NonTrivial, c13Check, nil)
+	}
+	if p := os.Getenv("VERIF_REPLAY"); p != "" {
+		stored(p)
+		col.Complete()
 		return
 	}
 	for _, f := range regressFiles("C13") {
-		var c behCase
-		loadRegress(t, f, &c)
-		if len(c.Members) == 1 && len(c.Members[0].Script.Ops) == 0 {
-			verdictEvalAndClean(t, cfgCase{C: c.Members[0].Files[0]})
-		} else {
-			behBatch(t, c, c13NonTrivial, c13Check, nil)
-		}
+		stored(f)
 		col.Label("regress")
 	}
 
